@@ -10,14 +10,14 @@ LEVEL = "model_checking"
 FUNCTIONS = [("pandapower.build_gen", "_build_gen_ppc"), ("pandapower.build_gen", "_build_pp_gen"), ("pandapower.build_gen", "_build_pp_ext_grid"),
              ("pandapower.build_gen", "_build_pp_pq_element"), ("pandapower.build_gen", "add_p_constraints"), ("pandapower.build_gen", "add_q_constraints"),
              ("pandapower.build_gen", "_check_gen_vm_limits"), ("pandapower.build_gen", "_enforce_controllable_vm_pu_p_mw"),
-             ("pandapower.results_bus", "write_pq_results_to_element")]
-STUBS = ["the interior point solver's contract: on convergence the returned point lies inside the ppc box (PMIN<=PG<=PMAX, QMIN<=QG<=QMAX, "
+             ("pandapower.results_bus", "write_pq_results_to_element"), ("pandapower.pypower.opf_setup", "opf_setup"), ("pandapower.pypower.makeBdc", "makeBdc")]
+STUBS = ["opf_model (the container opf_setup fills) -> a recorder of the variable bounds and linear constraint blocks", "the interior point solver's contract: on convergence the returned point lies inside the ppc box (PMIN<=PG<=PMAX, QMIN<=QG<=QMAX, "
          "VMIN<=VM<=VMAX); the point is symbolic and constrained only by that box"]
 ASSUMPTIONS = ["declared limits symbolic with min <= max; delta = 1e-10 (the repository's OPF tolerance widening)",
                "gen voltage limits inside the bus voltage limits (the documented consistent case; the inconsistent case only logs a warning)"]
-OUTSIDE = ["branch loading limits (inside PIPS)", "optimality", "PowerModels", "dcline constraint row (needs the om object)",
+OUTSIDE = ["AC branch loading limits (nonlinear constraint functions inside PIPS)", "optimality", "PowerModels", "dcline constraint row (needs the om object)",
            "'a power flow with the OPF dispatch reproduces the results' (iterative)"]
-BOUNDS = {"quick": "ext_grid + 2 gens (controllable / not) + controllable sgen, load, storage; every declared p/q/vm limit symbolic", "thorough": "same"}
+BOUNDS = {"quick": "ext_grid + 2 gens (controllable / not) + controllable sgen, load, storage; every declared p/q/vm limit symbolic; DC OPF flow constraints of the real opf_setup on 3 buses with a line and a phase shifting transformer (2 orientations)", "thorough": "same"}
 _NET = {}
 DELTA = 1e-10
 
@@ -117,8 +117,92 @@ def make_fn():
     return fn
 
 
+def make_dc_branch_limits(layout):
+    """DC OPF: the linear branch flow constraints the real opf_setup hands to the solver are satisfied exactly by the angle vectors whose
+    reported flow (Bf Va + Pfinj of the real makeBdc, which is what the DC OPF writes into the results) lies within -RATE_A..RATE_A"""
+    def fn(ctx):
+        os_ = ctx.load("pandapower.pypower.opf_setup")
+        mB = ctx.load("pandapower.pypower.makeBdc")
+        from symx.core import implies, all_of
+        from pandapower.pypower.idx_bus import BUS_I, BUS_TYPE, VA, VM, PD, GS, bus_cols
+        from pandapower.pypower.idx_brch import F_BUS, T_BUS, BR_X, TAP, SHIFT, BR_STATUS, RATE_A, branch_cols
+        from pandapower.pypower.idx_gen import GEN_BUS, GEN_STATUS, PG, PMIN, PMAX, VG, gen_cols
+        from pandapower.pypower.idx_cost import MODEL, NCOST, COST
+        nb = 3
+        bus = ctx.obj(np.zeros((nb, bus_cols)))
+        for b in range(nb):
+            bus[b, BUS_I], bus[b, BUS_TYPE], bus[b, VM] = b, (3 if b == 0 else 1), 1.0
+            bus[b, PD] = ctx.var(f"pd{b}", -5., 5.)
+        branch = ctx.obj(np.zeros((len(layout), branch_cols)))
+        rate, shift = {}, {}
+        for k, (f, t, kind) in enumerate(layout):
+            branch[k, F_BUS], branch[k, T_BUS], branch[k, BR_STATUS] = f, t, 1
+            branch[k, BR_X] = ctx.var(f"x{k}", 0.01, 1.)
+            branch[k, TAP] = ctx.var(f"tap{k}", 0.9, 1.1) if kind == "t" else 0.0
+            if kind == "t":
+                shift[k] = ctx.var(f"shift{k}", -60., 60.)
+                branch[k, SHIFT] = shift[k]
+            if kind != "free":
+                rate[k] = ctx.var(f"rate{k}", 0.5, 50.)
+                branch[k, RATE_A] = rate[k]
+        gen = ctx.obj(np.zeros((2, gen_cols)))
+        pmin = [ctx.var(f"pmin{g}", -10., 0.) for g in range(2)]
+        pmax = [ctx.var(f"pmax{g}", 0., 10.) for g in range(2)]
+        for g, gb in enumerate((0, 2)):
+            gen[g, GEN_BUS], gen[g, GEN_STATUS], gen[g, VG], gen[g, PMIN], gen[g, PMAX] = gb, 1, 1.0, pmin[g], pmax[g]
+        gencost = np.zeros((2, 7))
+        gencost[:, MODEL], gencost[:, NCOST], gencost[:, COST] = 2, 2, 1.0
+        base = 10.0
+        ppc = {"baseMVA": base, "bus": bus, "gen": gen, "branch": branch, "gencost": gencost}
+        rec = {"vars": {}, "cons": {}}
+
+        class OM:
+            def __init__(self, ppc_): pass
+            def userdata(self, *a): return None
+            def add_vars(self, name, N, v0=None, vl=None, vu=None): rec["vars"][name] = (N, v0, vl, vu)
+            def add_constraints(self, name, A, l, u, varsets=None): rec["cons"][name] = (A, l, u, varsets)
+        ppopt = {"PF_DC": 1, "OPF_ALG": 200, "VERBOSE": 0, "OPF_IGNORE_ANG_LIM": 1}
+        from .common import patched
+        with patched(os_, opf_model=OM, run_userfcn=lambda *a: None):
+            os_.opf_setup(ppc, ppopt)
+        ctx.true("constraints_handed_to_the_solver", set(("Pmis", "Pf", "Pt")) <= set(rec["cons"]) and set(("Va", "Pg")) <= set(rec["vars"]))
+        if not set(("Pmis", "Pf", "Pt")) <= set(rec["cons"]):
+            return
+        B, Bf, Pbusinj, Pfinj, _ = mB.makeBdc(bus, branch)
+        dense = lambda M: M.toarray() if hasattr(M, "toarray") else np.asarray(M)
+        Bfd = dense(Bf)
+        va = [0.0] + [ctx.var(f"va{b}", -1., 1.) for b in range(1, nb)]          # radians, reference angle 0
+        limited = sorted(rate)
+        Apf, lpf, upf, _ = rec["cons"]["Pf"]
+        Apt, lpt, upt, _ = rec["cons"]["Pt"]
+        Apf, Apt = dense(Apf), dense(Apt)
+        ctx.true("one_constraint_row_per_limited_branch", Apf.shape[0] == len(limited) and Apt.shape[0] == len(limited))
+        if Apf.shape[0] != len(limited):
+            return
+        for r, k in enumerate(limited):
+            flow = sum(Bfd[k, j] * va[j] for j in range(nb)) + Pfinj[k]          # per unit; the reported p_from is flow * baseMVA
+            row_f = sum(Apf[r, j] * va[j] for j in range(nb))
+            row_t = sum(Apt[r, j] * va[j] for j in range(nb))
+            sat = (row_f <= upf[r]) & (row_t <= upt[r])
+            within = (flow * base <= rate[k]) & (flow * base >= -rate[k])
+            ctx.true(f"solver_constraints_imply_flow_within_rating/branch{k}", implies(sat, within) if ctx.symbolic else ((not sat) or within))
+            ctx.true(f"flow_within_rating_satisfies_solver_constraints/branch{k}", implies(within, sat) if ctx.symbolic else ((not within) or sat))
+        N, v0, vl, vu = rec["vars"]["Pg"]
+        for g in range(2):
+            ctx.eq(f"dispatch_lower_bound_is_declared_minimum/gen{g}", vl[g] * base, pmin[g])
+            ctx.eq(f"dispatch_upper_bound_is_declared_maximum/gen{g}", vu[g] * base, pmax[g])
+    return fn
+
+
 def instances(tier):
-    return [Inst("limits_round_trip", make_fn(), nvars=80, samples=2, timeout_ms=60000, meta=dict(elements="ext_grid, gen x2, sgen, load, storage"))]
+    out = [Inst("limits_round_trip", make_fn(), nvars=80, samples=2, timeout_ms=60000, meta=dict(elements="ext_grid, gen x2, sgen, load, storage"))]
+    lays = {"line_and_phase_shifter": [(0, 1, "l"), (1, 2, "t")], "phase_shifter_reversed": [(0, 1, "l"), (2, 1, "t")]}
+    if tier == "thorough":
+        lays["meshed_with_unlimited_branch"] = [(0, 1, "l"), (1, 2, "t"), (0, 2, "free")]
+    for nm, lay in lays.items():
+        out.append(Inst(f"dc_opf_branch_limits_{nm}", make_dc_branch_limits(lay), nvars=30, samples=3, timeout_ms=60000,
+                        meta=dict(part="DC OPF branch flow constraints", layout=lay)))
+    return out
 
 
 LEVEL_TEXT = ("Bounded model checking of the constraint translation: the real OPF builders map the declared (symbolic) p/q/vm limits of every "
